@@ -248,7 +248,7 @@ pub fn long_skip_list(quick: bool) -> Vec<OpeningHoursExpression> {
     let ts = al::times();
     let mods = al::modifiers();
     let mut out = Vec::new();
-    let time_idx: Vec<usize> = if quick { vec![0, 6, 17] } else { vec![0, 1, 3, 6, 4, 10, 17] };
+    let time_idx: Vec<usize> = if quick { vec![0, 6, 17, 20] } else { vec![0, 1, 3, 6, 4, 10, 17, 20, 21] };
     for ds in al::day_selectors(1).iter().skip(1) {
         if !al::is_long_skip(ds) {
             continue;
